@@ -127,6 +127,10 @@ _md_rule_pat = re.compile(r"^(-{2,}|=+|\*{2,}|_+)$")
 # Lines that are a thematic break, also when they follow a `-` list marker (`- --`).
 _md_thematic_pat = re.compile(r"^((-[ \t]*){2,}|(\*[ \t]*){3,}|(_[ \t]*){3,})$")
 
+# Words that at the start of a line may be (the start of) the delimiter row of a table
+# (`-|`, `|-|-|`, `:-:`), if the line above has a pipe. A smiley `:-|` is one of them.
+_md_table_delim_pat = re.compile(r"^[|:\-]*-[|:\-]*$")
+
 # Words that open a fenced code block at the start of a line. (A backtick fence cannot have
 # another backtick later in the word; such a word is a code span.)
 _md_fence_pat = re.compile(r"^(`{3,})[^`]*$|^(~{3,})")
@@ -148,6 +152,8 @@ def markdown_escape_word(word: str) -> str:
         return "".join("\\" + c for c in word)
     elif word.startswith(">"):
         # A block quote marker needs no following space.
+        return "\\" + word
+    elif _md_table_delim_pat.match(word):
         return "\\" + word
     else:
         fence_match = _md_fence_pat.match(word)
@@ -234,7 +240,7 @@ def wrap_paragraph_lines(
     first_line = True
 
     # Walk through words, breaking them into lines.
-    for word in words:
+    for i, word in enumerate(words):
         # A literal backslash is escaped if it ends up at the end of a line: keep a column.
         reserve = int(is_markdown and (len(word) - len(word.rstrip("\\"))) % 2 == 1)
         word_width = len_fn(word) + reserve
@@ -257,6 +263,9 @@ def wrap_paragraph_lines(
             escaped_word = word
             if is_markdown and not first_line:
                 escaped_word = markdown_escape_word(word)
+                if word == "|" and i + 1 < len(words) and _md_table_delim_pat.match(words[i + 1]):
+                    # A delimiter row written with spaces: `| - | - |`.
+                    escaped_word = "\\|"
 
             # Recalculate width after potential escaping for the new line.
             escaped_word_width = len_fn(escaped_word) + reserve
